@@ -111,6 +111,8 @@ def run(pid, tier):
         for text in long_runs():
             o = observe.lex(text)
             R.case(("long", len(text), text[:8]))
+            if o["exc"] == "NotRun":
+                continue
             if o["exc"] is not None or len(o["tokens"]) > len(text):
                 R.violation(dict(kind="tokenizer_exception", input_head=text[:60], input_len=len(text), exc=o["exc"],
                                  frame=o["excframe"]))
